@@ -12,6 +12,10 @@ from .. import alg
 ID = 'C15'
 CURVES = [('QuadraticBezier2', 2, 2), ('QuadraticBezier3', 2, 3), ('CubicBezier2', 3, 2), ('CubicBezier3', 3, 3)]   # name, degree, dimension
 CP = {2: ['start', 'ctrl', 'end'], 3: ['start', 'ctrl0', 'ctrl1', 'end']}
+PRELUDE = '''
+pub struct Two<T>(pub Option<T>, pub Option<T>);
+impl<T> Iterator for Two<T> { type Item = T; fn next(&mut self) -> Option<T> { if let Some(x) = self.0.take() { Some(x) } else { self.1.take() } } }
+'''
 BINOM = {0: [1], 1: [1, 1], 2: [1, 2, 1], 3: [1, 3, 3, 1]}
 
 
@@ -51,9 +55,42 @@ def build_roots():
             add('r_bounds_%s_%s' % (cn, ax), 'pub fn r_bounds_%s_%s(c: %s) -> (f32, f32) { c.%s_bounds() }' % (cn, ax, CT, ax), opaque=['*::min_' + ax, '*::max_' + ax], kind='bounds', c=cn, deg=deg, dim=dim, ax=ax)
         box = 'aabr' if dim == 2 else 'aabb'; BT = 'Aabr<f32>' if dim == 2 else 'Aabb<f32>'
         add('r_box_%s' % cn, 'pub fn r_box_%s(c: %s) -> %s { c.%s() }' % (cn, CT, BT, box), opaque=['*::%s_bounds' % a for a in 'xyz'[:dim]], kind='box', c=cn, deg=deg, dim=dim)
+        PT = 'Vec%d<f32>' % dim
+        add('r_search_%s' % cn, 'pub fn r_search_%s(c: %s, p: %s, t1: f32, p1: %s, t2: f32, p2: %s) -> (f32, %s) { c.binary_search_point(p, Two(Some((t1, p1)), Some((t2, p2))), 0.0, 1.0) }' % (cn, CT, PT, PT, PT, PT),
+            opaque=['*::distance_squared', '*::distance', '*::magnitude', '*::magnitude_squared'], kind='search', c=cn, deg=deg, dim=dim, steps=None)
+        for st in (2, 4):
+            add('r_search_steps_%s_%d' % (cn, st), 'pub fn r_search_steps_%s_%d(c: %s, p: %s) -> (f32, %s) { c.binary_search_point_by_steps(p, %d, 1.0) }' % (cn, st, CT, PT, PT, st),
+                opaque=['*::distance_squared', '*::distance', '*::magnitude', '*::magnitude_squared', '*%s*::evaluate' % cn], kind='search', c=cn, deg=deg, dim=dim, steps=st)
         for n in (0, 1, 2, 3, 7):
             add('r_len_%s_%d' % (cn, n), 'pub fn r_len_%s_%d(c: %s) -> f32 { c.length_by_discretization(%d) }' % (cn, n, CT, n), kind='len', c=cn, deg=deg, dim=dim, n=n, max_paths=4)
     return roots, meta
+
+
+def guarded_quantities(conds, eps):
+    """quantities q for which the path carries the condition |q| > eps"""
+    out = []
+    for c in conds:
+        if not isinstance(c, B): continue
+        for a in c.atoms():
+            kind, name, args = alg._ATOMS[a]
+            if kind == 'fn' and name == 'abs' and len(args) == 1 and c == gt(fabs(args[0]), eps): out.append(args[0])
+    return out
+
+
+def denominator_guarded(t, conds, eps):
+    """every non-constant factor of the denominator of t is a quantity the path keeps away from zero"""
+    d = t.den
+    if d.is_const(): return True, None
+    for _ in range(8):
+        if d.is_const(): return True, None
+        hit = False
+        for q in guarded_quantities(conds, eps):
+            if not q.is_poly(): continue
+            r = alg.poly_divexact(d, q.num)
+            if r is not None:
+                d = r; hit = True; break
+        if not hit: break
+    return d.is_const(), d
 
 
 def guarded(t, conds):
@@ -72,7 +109,7 @@ def run(ctx):
     ctx.assumptions = ['exact arithmetic', 'extremality over all t follows from calculus: a polynomial on [0,1] attains its extrema at 0, 1 or interior zeros of its derivative; the inflection queries report every interior zero of a quadratic / linear derivative (checked: they return the zeros of the derivative polynomial)',
                        'declined: binary_search_point(_by_steps) (data-dependent loop), the box touching the curve and upper bound by the control polygon as computed facts, f64 sampling']
     roots, meta = build_roots()
-    sc = ctx.scan(roots, QUICK_FEATURES)
+    sc = ctx.scan(roots, QUICK_FEATURES, extra_prelude=PRELUDE)
     if sc.compile_error: return
     done = 0
     eps = named('eps:f32')
@@ -84,6 +121,7 @@ def run(ctx):
         try:
             if k == 'infl': infl(ctx, key, rs, w, m, eps)
             elif k == 'minmax': minmax_rule(ctx, key, rs, w, m)
+            elif k == 'search': search_rule(ctx, key, rs, w, m)
             elif k == 'bounds':
                 p = rs.only(); calls = p.ev('call')
                 names = [c[1].split('::')[-1] for c in calls]
@@ -147,6 +185,8 @@ def infl(ctx, key, rs, w, m, eps):
             if t.is_const():
                 ctx.ob('%s/path%d/t%d/constant-in-range' % (key, i, j), t.const_value() in (0, 1), 'a constant parameter is 0 or 1', w, '0 or 1', str(t)); continue
             ctx.ob('%s/path%d/t%d/in-unit-interval' % (key, i, j), guarded(t, conds), 'paths: a reported inflection parameter is guarded by 0 <=(<) t and t <=(<) 1 on its path', w, '0 <= t <= 1 among the path conditions', 't = %s ; conditions: %s' % (str(t)[:160], [str(c)[:120] for c in conds]))
+            okd, left = denominator_guarded(t, conds, eps)
+            ctx.ob('%s/path%d/t%d/denominator-guarded' % (key, i, j), okd, 'paths: a reported parameter divides only by quantities the path keeps away from zero (|q| > epsilon), so no root is lost to a 0/0', w, 'denominator factors among the guarded quantities', 'unguarded denominator factor: %s' % (str(left)[:200],))
             z = D.subs({tat: t})
             ok = z.is_zero()
             why = 'zero of the derivative'
@@ -240,3 +280,70 @@ def minmax_rule(ctx, key, rs, w, m):
         if bad: break
     ctx.counts['orderings:' + key] = n
     ctx.ob(key, bad is None and n > 0, 'ord: the returned parameter is 0, 1 or a reported inflection and the curve coordinate there is the %s over {start, end, curve at every reported inflection}, for every weak ordering of these coordinates and every presence pattern' % mm, w, '%d cases' % n, bad)
+
+
+def search_rule(ctx, key, rs, w, m):
+    """coarse phase of the closest-point search (no refinement: half interval 0 < epsilon 1): the returned (parameter, point) is the end point
+    or a coarse sample, whichever has the least squared distance to the query; distances are compared on one scale; sample parameters are i/steps"""
+    dim = m['dim']; ax = 'xyz'[:dim]; steps = m['steps']
+    q = [sym('a1.' + c) for c in ax]
+    end = [sym('a0.end.' + c) for c in ax]
+    paths = [p for p in feasible_paths(rs)]
+    rets = [p for p in paths if p.out == 'ret']
+    if not ctx.ob(key + '/returns', len(rets) >= 2 and len(rets) == len(paths), 'paths: the only panic is the documented epsilon assertion (infeasible for epsilon = 1)', w, 'returning paths only', [(p.out, str(p.panic)) for p in paths if p.out != 'ret'][:2]): return
+    # candidates
+    cands = [(C(1), end)]
+    if steps is None:
+        cands.append((sym('a2'), [sym('a3.' + c) for c in ax])); cands.append((sym('a4'), [sym('a5.' + c) for c in ax]))
+    else:
+        ecalls = {}
+        for p in rets:
+            for c in p.ev('call'):
+                if c[1].split('::')[-1] == 'evaluate': ecalls[str(p.term(c[2][-1]))] = (p.term(c[2][-1]), p.term(c[3]))
+        ts = sorted(ecalls)
+        want = sorted(str(C(Fraction(i, steps))) for i in range(steps))
+        if not ctx.ob(key + '/sample-parameters', ts == want, 'deleg: the coarse samples are the curve points at the parameters i/steps, i = 0..steps-1', w, want, ts): return
+        for tsr in ts:
+            t, ecall = ecalls[tsr]
+            cands.append((t, [fn('ret:%d' % i, ecall) for i in range(dim)]))
+    # distance atoms
+    D = {}
+    for p in rets:
+        for c in p.ev('call'):
+            nm = c[1].split('::')[-1]
+            if nm == 'evaluate': continue
+            if nm != 'distance_squared':
+                ctx.ob(key + '/one-scale', False, 'deleg: candidates are compared by squared distance throughout (mixing distance and squared distance picks a farther point)', w, 'distance_squared', nm); return
+            args = [p.term(t) for t in c[2]]
+            a, b = args[:dim], args[dim:]
+            pt = b if all(x == y for x, y in zip(a, q)) else a if all(x == y for x, y in zip(b, q)) else None
+            if pt is None:
+                ctx.ob(key + '/distance-to-query', False, 'deleg: every distance is measured to the query point', w, [str(x) for x in q], [str(x) for x in args]); return
+            D[tuple(str(x) for x in pt)] = Rat.atom(list(p.term(c[3]).atoms())[0]) if len(p.term(c[3]).atoms()) == 1 else p.term(c[3])
+    dat = []
+    for t, pt in cands:
+        k_ = tuple(str(x) for x in pt)
+        if k_ not in D:
+            ctx.ob(key + '/all-candidates-measured', False, 'deleg: the end point and every coarse sample are measured', w, k_, sorted(D)); return
+        dat.append(D[k_])
+    cr = CompiledRoot(rs)
+    n = 0; bad = None
+    for ranks in wo(len(cands)):
+        env = {'__fn__': num_fn}
+        for d, rk in zip(dat, ranks):
+            (mono, _), = d.num.t.items(); env[mono[0][0]] = Fraction(rk)
+        from ..rules import const_env
+        env.update(const_env())
+        try: p = cr.run(env)
+        except (AssertionError, KeyError) as e:
+            bad = (ranks, 'a unique feasible path', 'evaluation failed: %r' % (e,)); break
+        n += 1
+        if p.out != 'ret': bad = (ranks, 'returns', 'panic'); break
+        t, pt = p.ret[0], leaves(p.ret[1])
+        hit = [i for i, (ct, cp) in enumerate(cands) if t == ct and len(pt) == len(cp) and all(x == y for x, y in zip(pt, cp))]
+        if not hit:
+            bad = (ranks, 'one of the candidates (parameter together with its own point)', '(%s, %s)' % (t, [str(x) for x in pt])); break
+        if ranks[hit[0]] != min(ranks):
+            bad = ('distance ranks (end, samples...) = %s' % (ranks,), 'a candidate at minimal distance', 'candidate #%d with rank %d' % (hit[0], ranks[hit[0]])); break
+    ctx.counts['orderings:' + key] = n
+    ctx.ob(key, bad is None and n > 0, 'ord: without refinement the search returns (parameter, point) of the end point or a coarse sample that is no farther from the query than any of them, for every weak ordering of their distances', w, '%d orderings' % n, bad)
